@@ -20,7 +20,7 @@ func All() map[string]orch.PropertySpec {
 	return map[string]orch.PropertySpec{
 		"C01": {ID: "C01", Level: "model_checking", Assumptions: trusted,
 			Rule:  "cases are the attacker documents TLC enumerates from spec/Forgery.tla (root signature state x root ID x up to two kids with content, signature state, placement, encryption, ID collision) under signature checking and skip mode; each is made concrete (real XML, RSA signatures, XML-Enc, optional DEFLATE) and replayed; distinct = distinct abstract (cfg,input); every one is non-trivial (it reaches signature processing)",
-			Parts: []orch.Part{{Family: fam.Forgery{}, Monitors: []string{"C01"}}, {Family: fam.Xmlenc{}, Monitors: []string{"C01"}}, {Family: fam.Reconf{}, Monitors: []string{"C01"}}}},
+			Parts: []orch.Part{{Family: fam.Forgery{}, Monitors: []string{"C01"}}, {Family: fam.Xmlenc{}, Monitors: []string{"C01"}}, {Family: fam.Reconf{}, Monitors: []string{"C01"}}, {Family: fam.Protocol{}, Monitors: []string{"P_STATE"}}}},
 		"C02": {ID: "C02", Level: "model_checking", Assumptions: trusted,
 			Rule:  "cases are all combinations TLC enumerates from spec/Trust.tla: message kind (SSO root-signed, SSO assertion-signed, LogoutRequest, LogoutResponse) x signing key (trusted A, trusted B, untrusted) x certificate shown (A, B, untrusted, none) x store composition (0..2 certificates) x SP clock relative to the staggered certificate windows x altered content, plus the root-signature states of spec/Forgery.tla; every case is replayed; non-trivial = a signature is present or the store is non-empty",
 			Parts: []orch.Part{{Family: fam.Trust{}, Monitors: []string{"C02"}}, {Family: fam.Forgery{}, Monitors: []string{"C02"}}, {Family: fam.Reconf{}, Monitors: []string{"C02"}}}},
@@ -35,7 +35,7 @@ func All() map[string]orch.PropertySpec {
 			Parts: []orch.Part{{Family: fam.Cond{}, Monitors: []string{"C06"}}}},
 		"C10": {ID: "C10", Level: "model_checking", Assumptions: trusted,
 			Rule:  "cases are the full product TLC enumerates from spec/Logout.tla: LogoutRequest / LogoutResponse x Version ok/absent/wrong x Destination ok/absent/other x Issuer ok/absent/other x Status ok/absent/no code/non-success x signing state (unsigned, trusted, untrusted, tampered, genuine message wrapped in an unsigned outer one with a different / the same ID, signature relocated into a wrapper) x signature checking on/off x issuer configured or not, plus kind confusion (each of SSO Response, LogoutRequest, LogoutResponse given to each other validator), plus the logout kinds of spec/Trust.tla; all replayed, raw or DEFLATE by seed; non-trivial = every case",
-			Parts: []orch.Part{{Family: fam.Logout{}, Monitors: []string{"C10"}}, {Family: fam.Trust{}, Monitors: []string{"C10"}}, {Family: fam.Reconf{}, Monitors: []string{"C10"}}}},
+			Parts: []orch.Part{{Family: fam.Logout{}, Monitors: []string{"C10"}}, {Family: fam.Trust{}, Monitors: []string{"C10"}}, {Family: fam.Reconf{}, Monitors: []string{"C10"}}, {Family: fam.Protocol{}, Monitors: []string{"P_STATE"}}}},
 		"C04": {ID: "C04", Level: "model_checking", Assumptions: trusted,
 			Rule:  "cases are the attacker documents of spec/Forgery.tla (signature-checking and skip mode), the signer/store/clock matrix of spec/Trust.tla for all four inbound kinds and the signing states of spec/Logout.tla; each replayed against the real code, flags of the Response, of every assertion, of the assertion-info summary and of logout messages projected; non-trivial = every case",
 			Parts: []orch.Part{{Family: fam.Forgery{}, Monitors: []string{"C04"}}, {Family: fam.Trust{}, Monitors: []string{"C04"}}, {Family: fam.Logout{}, Monitors: []string{"C04"}}}},
@@ -64,7 +64,7 @@ func All() map[string]orch.PropertySpec {
 			Parts:  []orch.Part{{Family: fam.Outbound{}, Monitors: []string{"C13"}}, {Family: fam.SigningCtx{}, Monitors: []string{"C13"}}}},
 		"C15": {ID: "C15", Level: "model_checking", Assumptions: append([]string{"configuration strings are seeded samples of five classes, not enumerated"}, trusted...),
 			Rule:  "cases TLC enumerates from spec/Outbound.tla (shape and keys sub-spaces): ForceAuthn x IsPassive x NameIdFormat set/unset x RequestedAuthnContext nil / 0..2 contexts x SP issuer set or falling back x clock zone x string class x 3 message kinds; the output is parsed by expat and by encoding/xml (which must agree), children are checked against the SAML schema sequence in TLA+, every value is compared, and the element/attribute skeleton is compared with the one produced by benign strings; non-trivial = every case",
-			Parts: []orch.Part{{Family: fam.Outbound{}, Monitors: []string{"C15"}}, {Family: fam.ReconfOut{}, Monitors: []string{"C15"}}}},
+			Parts: []orch.Part{{Family: fam.Outbound{}, Monitors: []string{"C15"}}, {Family: fam.ReconfOut{}, Monitors: []string{"C15"}}, {Family: fam.Protocol{}, Monitors: []string{"P_SPMSG"}}}},
 		"C19": {ID: "C19", Level: "model_checking", Assumptions: append([]string{"validity hours are bounded by what time.Duration can represent"}, trusted...),
 			Rule:  "cases TLC enumerates from spec/Outbound.tla (meta sub-space): plain / single-logout variant x requested hours x AuthnRequestsSigned x skip-signature x string class x 12 key configurations x clock zone; the marshalled metadata is parsed by expat, compared with configuration, the published signing certificate with the key that verifies a message signed in the same run, the published encryption certificate with the key that decrypts a message encrypted to it in the same run; non-trivial = every case",
 			Parts: []orch.Part{{Family: fam.Outbound{}, Monitors: []string{"C19"}}, {Family: fam.ReconfOut{}, Monitors: []string{"C19"}}}},
